@@ -3,8 +3,8 @@ import FeatherModel.Base.Sexp
 /-!
 # Model of `dukebox/src/merge.rs` (client/server jar merge)
 
-Mirrors the code as it is (after the commit "merge_preserve_order advances the server cursor and tests membership
-in the client list"):
+Mirrors the code as it is (after the commits "merge_preserve_order advances the server cursor and tests membership
+in the client list" and "jar merge reports classes that cannot be merged as an error instead of panicking"):
 
 * `mergePreserveOrder` — the three nested `while`s of `merge_preserve_order`, literally: an outer loop (fuel
   `|a|+|b|+1`, never exhausted: `Thm.C13.mpo_fuel`) whose body runs the three inner loops to completion one after the
@@ -12,7 +12,9 @@ in the client list"):
 * `mergeSlice` — keyed member merge (`IndexMap`s built by `collect`: duplicate keys, last one wins);
 * `mergeClass` — `class_merger_merge` on the modelled part of a class (version, access, name, super, interfaces, fields,
   methods, deprecated/synthetic, InnerClasses, one client-side payload standing for "everything taken from the client",
-  visible / invisible annotations). `assert_eq!` / `panic!` sites are the distinct outcome `Outcome.panic`;
+  visible / invisible annotations). `merge_eq`, `merge_from_client` and the InnerClasses closure `bail!` (outcome `err`);
+  the only panic site left is the `unreachable!()` arm of `merge_slice` (outcome `Outcome.panic`, never taken:
+  `Thm.C13.merge_class_no_panic`, `Thm.C13.merge_jar_no_panic`);
 * `mergeJar` — the entry table `Client | Server | Both` × manifest / signature files / bundled server libraries /
   class equal-bytes passthrough vs merged / other / dir / type mismatch, in `IndexMap` insertion order.
 
@@ -184,13 +186,14 @@ def mergeSlice [BEq T] (key : T → K) (side : T → Side → Outcome T) (inner 
 end Slice
 
 def mergeEq {α : Type} [BEq α] (c s : α) : Outcome α := if c != s then err else ok c
-def mergeFromClient {α : Type} [BEq α] (c s : α) : Outcome α := if c != s then Outcome.panic "merge_from_client" else ok c
+/-- since 9bfd462 the same as `merge_eq` (`bail!` instead of `assert_eq!`) -/
+def mergeFromClient {α : Type} [BEq α] (c s : α) : Outcome α := if c != s then err else ok c
 
 def memberKey (m : Member) : JStr × JStr := (m.name, m.desc)
 
 def sideMember (m : Member) (s : Side) : Outcome Member := ok { m with anns := m.anns ++ [Ann.env s] }
 
-/-- the `inner` closure for fields and methods: everything from the client; deprecated/synthetic are asserted equal -/
+/-- the `inner` closure for fields and methods: everything from the client; deprecated/synthetic must be equal (else `Err`) -/
 def innerMember (c s : Member) : Outcome Member := do
   let name ← mergeEq c.name s.name
   let desc ← mergeEq c.desc s.desc
@@ -201,7 +204,7 @@ def innerMember (c s : Member) : Outcome Member := do
 def mergeMembers (c s : List Member) : Outcome (List Member) := mergeSlice memberKey sideMember innerMember c s
 
 def mergeInners (c s : List Inner) : Outcome (List Inner) :=
-  mergeSlice (fun i => i.name) (fun i _ => ok i) (fun _ _ => Outcome.panic "inner_classes") c s
+  mergeSlice (fun i => i.name) (fun i _ => ok i) (fun _ _ => err) c s
 
 /-- interfaces of the merged list that only the given side has -/
 def onlyClient (c s : Class) (itfs : List JStr) : List JStr :=
@@ -347,7 +350,7 @@ def sharedFlagsOk (c s : List Member) : Bool :=
 def sharedInnersOk (c s : List Inner) : Bool :=
   c.all (fun ic => s.all (fun is' => ic.name != is'.name || ic == is'))
 
-/-- the domain on which `class_merger_merge` neither fails nor panics (`Thm.C13.merge_class_total`) -/
+/-- the domain on which `class_merger_merge` returns `Ok` (`Thm.C13.merge_class_total`, `Thm.C13.merge_class_ok_iff`) -/
 def mergeOk (c s : Class) : Bool :=
   c.version == s.version && c.access == s.access && c.name == s.name && c.super == s.super &&
   c.deprecated == s.deprecated && c.synthetic == s.synthetic &&
